@@ -24,8 +24,8 @@ CHECKS = {
          "Seeded search over DML/DDL histories and probe queries; twin instances differ only in the existence of user-defined indexes; any difference in base tables or in a probe result (multiset; sequence under total ORDER BY) is a violation, minimised and replayable.",
          "Sampling, not proof. Probe SQL subset as listed in the evidence. Known finding C02-index-f64-precision keeps integers beyond +-2^53 out of this check's workload.", "6/C02"),
  "C03": ("dbsim", "exploration", "deterministic simulation with buggify twins: every probe executed with the columnar gate open and forced shut (guarded hook) on states reached by seeded histories",
-         "Same state, two execution paths: each generated single-table aggregate probe runs with the columnar gate open and with it forced shut; rows must be equal (numerics by value); on the gated path COUNT is never NULL and exactly one row is returned. The hook's hit counter in the evidence shows how often the gated path was really consulted.",
-         "Sampling. Known finding C03-columnar-f64-sum keeps integers beyond +-2^53 out of this workload. HAVING/ORDER BY/LIMIT/OFFSET probes exercise the gate's refusal, not the columnar kernels.", "6/C03"),
+         "Same state, two execution paths: each generated single-table aggregate probe (COUNT/SUM/AVG/MIN/MAX over integer, string, DOUBLE PRECISION, NUMERIC, REAL, DATE and BOOLEAN columns; one run in six bulk-loads a typed table of 1000-3072 rows whose id ranges select exact multiples of the SIMD batch size) runs with the columnar gate open and with it forced shut; rows must be equal (numerics by value); on the gated path COUNT is never NULL and exactly one row is returned. The hook's hit counter in the evidence shows how often the gated path was really consulted.",
+         "Sampling. Known finding C03-columnar-f64-sum keeps integers beyond +-2^53 out of this workload; known finding C03-columnar-filter-epsilon keeps float values within 1e-9 of a compared literal out of it. Float values and all their partial sums are exact in f64 (the order of summation is not part of the property). HAVING/ORDER BY/LIMIT/OFFSET probes exercise the gate's refusal, not the columnar kernels.", "6/C03"),
  "C04": ("dbsim", "exploration", "deterministic simulation: the executor's rayon operators run on a seeded single-thread scheduler stand-in; thresholds switched per run (guarded hook); same probe under never/always-parallel x schedules",
          "Each probe is executed under never-parallel and four always/threshold-7 parallel configurations, each with its own seeded schedule (execution order of map/filter items, chunk order, split tree of the stable merge sort); all must agree (multiset; sequence under total ORDER BY). Bulk-loaded runs push the chunked hash-join build over several chunks.",
          "The stand-in checks schedule-independence of results, not memory safety of real threads (the parallel closures contain no unsafe code).", "6/C04"),
@@ -69,16 +69,16 @@ CHECKS = {
          "Valid images in all four formats come from seeded histories on the real engine; every damaged image is handed to every applicable loader (path-based API, auto-detection with and without extension, and the Read-generic binary codec over a reader with short reads and EINTR). Oracle: Ok or Err only - no panic, abort, hang (10 s) or single allocation above 64 MiB + 64 x file length.",
          "Truncation is exhaustive for images <= 8 KiB (all of them in practice); the other fault kinds are sampled. Decompression bombs are not constructed deliberately.", "6/C20"),
  "C24": ("dbsim", "exploration", "deterministic simulation: every statement of seeded histories (incl. faulty and extreme-valued ones) under catch_unwind",
-         "Panic monitor over all statements of the general history with extreme integer literals and arithmetic; harness build has overflow checks on, so unchecked arithmetic panics instead of wrapping.",
-         "Stateful reading only; the space of all statements is not enumerated.", "6/C24"),
+         "Panic and hang monitor over all statements of the general history and of a hostile-statement generator (extreme integer literals and arithmetic, multi-byte strings at every slicing function, malformed temporal literals); harness build has overflow checks on, so unchecked arithmetic panics instead of wrapping. Aggregates: a bulk table of ~2^52 values (SIMD batches whose sum leaves the 64-bit range) and a table of 2-9 integers around i64::MAX/n, whose SUM must equal the sum the harness computes in 128 bits or be NULL/an error when that does not fit.",
+         "Stateful reading only; the space of all statements is not enumerated. Known finding C03-columnar-f64-sum: with its guard a fitting sum handed out as the correctly rounded Double is accepted (nothing else is).", "6/C24"),
  "C25": ("dbsim", "exploration", "deterministic simulation: seeded interleavings of writes and cached reads through the real signature/cache/table-extractor; every cache hit compared with direct execution",
-         "The real QuerySignature::from_sql, QueryResultCache and extract_tables_from_select are driven with the lookup/store/invalidate protocol of the repository's sqllogictest adapter over seeded histories; query texts vary literal case and inner white space, identifier case and layout, and reach tables through joins, subqueries, derived tables, CTEs, UNION, HAVING subqueries (and a view when the known finding's guard is off); each hit must equal what executing the text now returns.",
+         "The real QuerySignature::from_sql, QueryResultCache and extract_tables_from_select are driven with the lookup/store/invalidate protocol of the repository's sqllogictest adapter over seeded histories; query texts vary literal case and inner white space (also as near-duplicates of an earlier text in which one literal is replaced by such a variant), carry several literals (some ending in a backslash or containing quotes), vary identifier case and layout, and reach tables through joins, subqueries, derived tables, CTEs, UNION, HAVING subqueries (and a view when the known finding's guard is off); each hit must equal what executing the text now returns.",
          "Sampling. The protocol glue re-states a test-support file. Known finding C25-view-dependencies keeps views out of this workload.", "6/C25"),
  "C26": ("dbsim", "exploration", "deterministic simulation: seeded GRANT/REVOKE/SET ROLE histories with security enabled; model of held privileges; every statement shape that touches a table executed under non-admin roles",
          "Model = set of (role, table, privilege) implied by accepted GRANT/REVOKE. 26 statement shapes (scans, index scans, aggregates, joins, IN/NOT IN/EXISTS/scalar subqueries, derived tables, CTEs, UNION, a view, INSERT VALUES, INSERT..SELECT on both paths, UPDATE/DELETE with subqueries) run under the current role; a statement lacking a needed privilege must fail and leave both tables unchanged.",
          "Sampling; one-sided as the property is stated (a refusal despite held privileges is counted, not reported). No PUBLIC grants, role membership or grant options.", "6/C26"),
  "C27": ("netsim", "exploration", "deterministic simulation of the client byte stream: seeded frame sequences (well-formed and malformed) delivered in seeded fragments into the server's real decoder through the receive loop of connection.rs",
-         "The server's protocol module is compiled into the harness by path. Oracles per decoder call: no panic; well-formed frames decode to the message sent under every fragmentation; exactly the frame is consumed and following bytes stay untouched; a malformed frame with a usable length is never answered by consuming bytes beyond it; a completely delivered well-formed frame is never left waiting.",
+         "The server's protocol module is compiled into the harness by path. Oracles per decoder call: no panic; well-formed frames decode to the message sent under every fragmentation; exactly the frame is consumed and following bytes stay untouched; startup packets also carry the protocol's reserved request codes (CancelRequest, SSLRequest, GSSENCRequest) at every declared length from 8 to 24; a malformed frame with a usable length is never answered by consuming bytes beyond it; a completely delivered well-formed frame is never left waiting.",
          "Sampling. Transport and receive loop are re-stated (Connection is welded to tokio::net::TcpStream); asking for more bytes on a negative/oversized length is accepted as the statement allows it.", "6/C27"),
  "C30": ("pysim", "exploration", "deterministic simulation of DB-API call histories: seeded sequences of cursor.execute(sql, params) on the compiled extension module against a twin connection that executes harness-bound literal statements",
          "Each run is a seeded history of execute calls (two cursors, texts re-used with other tuples, '?' inside literals, hostile strings, boundary numbers, bool/None, arity faults) on connection A; connection B receives the same statement with every placeholder outside string literals replaced by a literal written by the harness. After every call: same outcome class, same fetched rows, same table contents, and bound values of a full-row INSERT read back equal with their Python type.",
